@@ -375,8 +375,10 @@ func c06Judge(c *Ctx, in hostileInput, res hostileResult) {
 	if res.Alloc > lim {
 		c.Violate("allocation", "alloc-out-of-proportion:"+in.class+":"+res.Where, fmt.Sprintf("class=%s input=%s (%d bytes) :: %s allocated %d bytes (bound %d)", in.class, k.Shown, len(in.data), res.Where, res.Alloc, lim), k, nil)
 	}
-	if res.CPUms > 10000 {
-		c.Violate("cpu", "cpu-budget:"+in.class, fmt.Sprintf("class=%s input=%s :: %d ms CPU for %d bytes", in.class, k.Shown, res.CPUms, len(in.data)), k, nil)
+	// CPU: 10 s plus 4 microseconds per input byte for all API programs together (they read the input
+	// about ten times over, byte by byte)
+	if budget := int64(10000 + len(in.data)/250); res.CPUms > budget {
+		c.Violate("cpu", "cpu-budget:"+in.class, fmt.Sprintf("class=%s input=%s :: %d ms CPU for %d bytes (budget %d ms)", in.class, k.Shown, res.CPUms, len(in.data), budget), k, nil)
 	}
 	c.mu.Lock()
 	if int64(res.Alloc) > c.obs["max_alloc_bytes_one_run"] {
@@ -440,6 +442,7 @@ func c06RunBatch(c *Ctx, id int, inputs []hostileInput) {
 			return
 		}
 		current := -1
+		cpuAtStart := 0.0
 		lastLine := time.Now()
 		var mu sync.Mutex
 		done := make(chan struct{})
@@ -455,9 +458,18 @@ func c06RunBatch(c *Ctx, id int, inputs []hostileInput) {
 				idle := time.Since(lastLine)
 				mu.Unlock()
 				if idle > 20*time.Second {
-					// in-flight input is slow: decide on CPU seconds, not wall clock
-					if cpu := procCPUSeconds(cmd.Process.Pid); cpu > 30 || idle > 10*time.Minute {
-						hung = cpu > 30
+					// in-flight input is slow: decide on the CPU seconds it has had, not on wall clock
+					// (30 s plus 12 microseconds per input byte: six API programs read a multi-megabyte
+					// document several times over)
+					mu.Lock()
+					cur, since := current, cpuAtStart
+					mu.Unlock()
+					limit := 30.0
+					if cur >= 0 && cur < len(inputs) {
+						limit += float64(len(inputs[cur].data)) * 12e-6
+					}
+					if cpu := procCPUSeconds(cmd.Process.Pid) - since; cpu > limit || idle > 15*time.Minute {
+						hung = cpu > limit
 						cmd.Process.Kill()
 						return
 					}
@@ -473,7 +485,11 @@ func c06RunBatch(c *Ctx, id int, inputs []hostileInput) {
 			lastLine = time.Now()
 			mu.Unlock()
 			if strings.HasPrefix(line, "S ") {
-				current, _ = strconv.Atoi(line[2:])
+				n, _ := strconv.Atoi(line[2:])
+				at := procCPUSeconds(cmd.Process.Pid)
+				mu.Lock()
+				current, cpuAtStart = n, at
+				mu.Unlock()
 			} else if strings.HasPrefix(line, "E ") {
 				var res hostileResult
 				if json.Unmarshal([]byte(line[2:]), &res) == nil && res.I >= 0 && res.I < len(inputs) {
@@ -1057,7 +1073,7 @@ func runC06(c *Ctx) {
 
 func init() {
 	Register(&Monitor{ID: "C06", Run: func(c *Ctx) {
-		c.Rule = "hostile inputs (grammar-aware: every slot of symbol-table/import structs filled with every typed null, wrong type, duplicate, extreme number; extreme lengths/ids/exponents/years; nesting of 1000, 65000 and 1.5 to 7 million levels in text and binary; runs of 9,000,000 NOP pads; annotation lengths that disagree with their wrapper, children that overrun their parent, ids in the reserved high range, chains of appended symbol tables, thousands of long-string segments; byte-level mutations of valid documents in both formats; exhaustive short inputs) run in rlimited child processes through 6 API programs (full traversal with/without catalog, random call sequences continuing after errors, Decoder.Decode loop, Unmarshal into 33 target types). Oracle: no recovered panic, no fatal runtime error, values returned <= input bytes, TotalAlloc of one API run <= 1 MiB + 1 KiB/input byte, CPU <= 10 s (hang: > 30 s CPU, decided on CPU seconds of the child). Non-trivial: >= 3 API calls and > 4 input bytes; distinct by input bytes."
+		c.Rule = "hostile inputs (grammar-aware: every slot of symbol-table/import structs filled with every typed null, wrong type, duplicate, extreme number; extreme lengths/ids/exponents/years; nesting of 1000, 65000 and 1.5 to 7 million levels in text and binary; runs of 9,000,000 NOP pads; annotation lengths that disagree with their wrapper, children that overrun their parent, ids in the reserved high range, chains of appended symbol tables, thousands of long-string segments; byte-level mutations of valid documents in both formats; exhaustive short inputs) run in rlimited child processes through 6 API programs (full traversal with/without catalog, random call sequences continuing after errors, Decoder.Decode loop, Unmarshal into 33 target types). Oracle: no recovered panic, no fatal runtime error, values returned <= input bytes, TotalAlloc of one API run <= 1 MiB + 1 KiB/input byte, CPU of all API programs on one input <= 10 s + 4 us per input byte (hang: the input in flight has had more than 30 s + 12 us per byte of CPU, decided on CPU seconds of the child, never on wall clock). Non-trivial: >= 3 API calls and > 4 input bytes; distinct by input bytes."
 		c.Assume("inputs are at most ~9 MB (most are below 130 KiB); the allocation bound (1 MiB + 1 KiB per input byte for each API call) is orders of magnitude above ordinary cost")
 		runC06(c)
 	}, Replay: func(c *Ctx, v *Violation) string {
